@@ -369,6 +369,11 @@ func parseRDNSS(d rawRDNSS, maxInterval time.Duration) (*plugin.RDNSS, error) {
 		if !ip.Is6() || ip.Is4In6() {
 			return nil, fmt.Errorf("string %q is not an IPv6 address", s)
 		}
+		if ip.Zone() != "" {
+			// A zone cannot be carried by the RDNSS option, and stripping it
+			// could produce the same server more than once.
+			return nil, fmt.Errorf("server %q must not specify a zone", s)
+		}
 
 		// If :: is present, don't add it to the slice but do set Auto to true
 		// so a server address can be automatically chosen at runtime. The
